@@ -67,7 +67,13 @@ def _bootstrap() -> None:
 # ---------------------------------------------------------------------------
 
 def _classify_exception(e: BaseException) -> Tuple[str, str]:
-    """('harness'|'repo', location) by the innermost frame of the traceback."""
+    """('harness'|'repo', location) by the innermost frame of the traceback -- of the root cause when the exception was
+    re-raised `from` another one (the executor wraps every fault of an instruction in "At line N: ..." that way; the
+    place that matters is where the fault arose, whichever instruction happened to surface it)."""
+    seen = 0
+    while isinstance(e.__cause__, Exception) and seen < 8:
+        e = e.__cause__
+        seen += 1
     tb = traceback.extract_tb(e.__traceback__)
     inner = tb[-1] if tb else None
     if inner is None:
